@@ -579,12 +579,17 @@ pub fn eval_corgi(p: &Program) -> Vec<Array> {
 /// Also returns, per element, the absolute-path-sum magnitude sum_k |seed[k]| * sum_paths |local derivatives|
 /// ("the terms involved") for the tolerance rule of the smooth class.
 pub fn expected_gradient(p: &Program, m: usize, seed: &[f64], root: usize) -> Option<(Vec<f64>, Vec<f64>)> {
+    expected_gradient_scaled(p, m, seed, root, !p.is_exact_class())
+}
+
+/// as `expected_gradient`; the magnitude scale is computed only when `need_scale` (the caller compares with tolerance)
+pub fn expected_gradient_scaled(p: &Program, m: usize, seed: &[f64], root: usize, need_scale: bool) -> Option<(Vec<f64>, Vec<f64>)> {
     let plain = eval_ref_plain(p)?;
     let n = plain.vals[m].v.len();
     let mut g = vec![0.0; n];
     let mut scale = vec![0.0; n];
     let is_leaf = matches!(p.nodes[m], Node::Leaf { .. });
-    let exact = p.is_exact_class();
+    let exact = !need_scale;
     for j in 0..n {
         let run = if is_leaf {
             eval_ref::<D64>(
